@@ -3,10 +3,6 @@
 package main
 
 import (
-	"encoding/pem"
-	"os/exec"
-	"os"
-	"encoding/json"
 	"bytes"
 	"context"
 	"crypto/ecdsa"
@@ -15,10 +11,14 @@ import (
 	"crypto/tls"
 	"crypto/x509"
 	"crypto/x509/pkix"
+	"encoding/json"
+	"encoding/pem"
 	"fmt"
 	"io"
 	"math/big"
 	"net"
+	"os"
+	"os/exec"
 	"sort"
 	"strings"
 	"sync"
@@ -249,13 +249,15 @@ func (b *c16Backend) FullDuplexCall(st grpc_testing.TestService_FullDuplexCallSe
 }
 
 type c16Rig struct {
-	a, b   *c16Backend
-	proxy  *grpc.Server
-	addr   string
-	cc     *grpc.ClientConn
-	client grpc_testing.TestServiceClient
-	tick   chan struct{}
-	parked chan struct{}
+	a, b     *c16Backend
+	proxy    *grpc.Server
+	addr     string
+	cc       *grpc.ClientConn
+	client   grpc_testing.TestServiceClient
+	ccGz     *grpc.ClientConn
+	clientGz grpc_testing.TestServiceClient
+	tick     chan struct{}
+	parked   chan struct{}
 	// controlled: the harness owns the ticks of the pool's clean-up loop
 	controlled bool
 }
@@ -296,6 +298,15 @@ func newC16Rig() *c16Rig {
 		panic(err)
 	}
 	r.client = grpc_testing.NewTestServiceClient(r.cc)
+	// a caller that compresses its messages with gzip. The per-connection (deprecated) compressor options are
+	// used on purpose: importing grpc/encoding/gzip here would register gzip for the whole process, fabio's
+	// server side included, and hide whether fabio itself can take such calls
+	r.ccGz, err = grpc.NewClient(r.addr, grpc.WithTransportCredentials(insecure.NewCredentials()), grpc.WithCompressor(grpc.NewGZIPCompressor()), grpc.WithDecompressor(grpc.NewGZIPDecompressor()),
+		grpc.WithDefaultCallOptions(grpc.MaxCallRecvMsgSize(16<<20), grpc.MaxCallSendMsgSize(16<<20)))
+	if err != nil {
+		panic(err)
+	}
+	r.clientGz = grpc_testing.NewTestServiceClient(r.ccGz)
 	return r
 }
 
@@ -322,6 +333,7 @@ type c16Call struct {
 	reqs    [][]byte
 	md      metadata.MD
 	timeout time.Duration
+	gz      bool // the caller compresses its messages (grpc-encoding: gzip)
 }
 
 type c16Result struct {
@@ -339,6 +351,10 @@ func (r *c16Rig) call(c c16Call) c16Result {
 	if c.md != nil {
 		ctx = metadata.NewOutgoingContext(ctx, c.md)
 	}
+	cl := r.client
+	if c.gz {
+		cl = r.clientGz
+	}
 	var res c16Result
 	var err error
 	pl := func(b []byte) *grpc_testing.Payload { return &grpc_testing.Payload{Body: b} }
@@ -349,7 +365,7 @@ func (r *c16Rig) call(c c16Call) c16Result {
 		if len(c.reqs) > 0 {
 			body = c.reqs[0]
 		}
-		resp, err = r.client.UnaryCall(ctx, &grpc_testing.SimpleRequest{Payload: pl(body)}, grpc.Header(&res.hdr), grpc.Trailer(&res.trailer))
+		resp, err = cl.UnaryCall(ctx, &grpc_testing.SimpleRequest{Payload: pl(body)}, grpc.Header(&res.hdr), grpc.Trailer(&res.trailer))
 		if err == nil {
 			res.replies = [][]byte{resp.GetPayload().GetBody()}
 		}
@@ -359,7 +375,7 @@ func (r *c16Rig) call(c c16Call) c16Result {
 			body = c.reqs[0]
 		}
 		var st grpc_testing.TestService_StreamingOutputCallClient
-		st, err = r.client.StreamingOutputCall(ctx, &grpc_testing.StreamingOutputCallRequest{Payload: pl(body)})
+		st, err = cl.StreamingOutputCall(ctx, &grpc_testing.StreamingOutputCallRequest{Payload: pl(body)})
 		if err == nil {
 			for {
 				var m *grpc_testing.StreamingOutputCallResponse
@@ -377,7 +393,7 @@ func (r *c16Rig) call(c c16Call) c16Result {
 		}
 	case "client-stream":
 		var st grpc_testing.TestService_StreamingInputCallClient
-		st, err = r.client.StreamingInputCall(ctx)
+		st, err = cl.StreamingInputCall(ctx)
 		if err == nil {
 			for _, m := range c.reqs {
 				if e := st.Send(&grpc_testing.StreamingInputCallRequest{Payload: pl(m)}); e != nil {
@@ -394,7 +410,7 @@ func (r *c16Rig) call(c c16Call) c16Result {
 		}
 	case "bidi":
 		var st grpc_testing.TestService_FullDuplexCallClient
-		st, err = r.client.FullDuplexCall(ctx)
+		st, err = cl.FullDuplexCall(ctx)
 		if err == nil {
 			for _, m := range c.reqs {
 				if e := st.Send(&grpc_testing.StreamingOutputCallRequest{Payload: pl(m)}); e != nil {
@@ -455,7 +471,7 @@ func c16Payload(n int, seed byte) []byte {
 
 func TestVerifC16Calls(t *testing.T) {
 	L := ev.Begin("C16", "c16-calls", "exploration",
-		"real stack: grpc.Server with fabio's options (main.newGrpcProxy: codec, transparent handler with GetGRPCDirector, stream interceptor) in front of two instrumented grpc_testing.TestService backends on loopback. call kind {unary, client-stream, server-stream, bidi} x request message sequences of <=3 payloads from {empty, 1B, 70kB} x reply sequences likewise x metadata {none, custom pair, binary -bin key, dsthost matching / not matching / twice} x backend outcome {OK, NotFound 'x', Internal, custom code 42} x with/without headers and trailers; oracle: identity on messages, custom metadata, trailers, status code and message, headers when >=1 message was sent; no matching route -> NotFound and no backend contacted. non-trivial = every call")
+		"real stack: grpc.Server with fabio's options (main.newGrpcProxy: codec, transparent handler with GetGRPCDirector, stream interceptor) in front of two instrumented grpc_testing.TestService backends on loopback. call kind {unary, client-stream, server-stream, bidi} x request message sequences of <=3 payloads from {empty, 1B, 70kB} x reply sequences likewise x metadata {none, custom pair, binary -bin key, dsthost matching / not matching / twice} x backend outcome {OK, NotFound 'x', Internal, custom code 42} x with/without headers and trailers x every fourth call from a caller that gzip-compresses its messages (per-connection compressor, nothing registered process-wide); oracle: identity on messages, custom metadata, trailers, status code and message, headers when >=1 message was sent; no matching route -> NotFound and no backend contacted. non-trivial = every call")
 	r := newC16Rig()
 	host := "grpc.example"
 	table := fmt.Sprintf("route add svcA /grpc.testing.TestService grpc://%s opts \"proto=grpc\"\nroute add svcB %s/grpc.testing.TestService grpc://%s opts \"proto=grpc\"\n", r.a.addr, host, r.b.addr)
@@ -525,10 +541,12 @@ func TestVerifC16Calls(t *testing.T) {
 								b.script, b.calls = sc, nil
 								b.mu.Unlock()
 							}
-							res := r.call(c16Call{kind: k, reqs: q, md: m.md})
+							// every fourth case comes from a caller that compresses its messages
+							gz := n%4 == 0
+							res := r.call(c16Call{kind: k, reqs: q, md: m.md, gz: gz})
 							L.Case()
 							L.NontrivialKey(fmt.Sprint(k, qi, pi, mi, oi, ht))
-							d := map[string]interface{}{"call": k, "requests": c16Bytes(q), "replies": c16Bytes(p), "metadata": m.name, "backend_status": fmt.Sprintf("%d %q", o.code, o.msg), "got_status": fmt.Sprintf("%d %q", res.code, res.msg)}
+							d := map[string]interface{}{"caller_compresses_with_gzip": gz, "call": k, "requests": c16Bytes(q), "replies": c16Bytes(p), "metadata": m.name, "backend_status": fmt.Sprintf("%d %q", o.code, o.msg), "got_status": fmt.Sprintf("%d %q", res.code, res.msg)}
 							if n%97 == 0 {
 								L.Sample(d)
 							}
